@@ -341,7 +341,7 @@ def work_containers(job):
     return r
 
 
-WWORD = re.compile(rb'(?<![A-Za-z0-9])w\d+(?![A-Za-z0-9])')
+WWORD = re.compile(rb'(?<![A-Za-z0-9])[wf]\d+(?![A-Za-z0-9])')          # w: body words, f: words of note texts (a note may be called only from inside another note)
 
 
 def work_docs(job):
